@@ -8,7 +8,7 @@ Inductive phase :=
 | Fresh            (* not yet accepted *)
 | Accepted         (* Accept returned, callback not yet consulted *)
 | Rejected         (* callback refused: closed, never tracked *)
-| Admitted_        (* callback passed (or unset), not yet tracked *)
+| Passed        (* callback passed (or unset), not yet tracked *)
 | Live             (* tracked, goroutine serving *)
 | Exiting          (* goroutine left handle(): recovered, conn closed *)
 | Untracked        (* trackConn(c,false) done *)
@@ -36,12 +36,12 @@ Inductive step : st -> st -> Prop :=
 | s_accept s c : ph s c = Fresh -> crashed s = false ->
     step s {| ph := upd (ph s) c Accepted; count := count s; close_calls := close_calls s; accept_args := accept_args s; crashed := false |}
 | s_cb_ok s c : ph s c = Accepted -> crashed s = false ->
-    step s {| ph := upd (ph s) c Admitted_; count := count s; close_calls := close_calls s;
+    step s {| ph := upd (ph s) c Passed; count := count s; close_calls := close_calls s;
               accept_args := (if on_accept k then [(c, (count s + 1)%Z)] else []) ++ accept_args s; crashed := false |}
 | s_cb_reject s c : ph s c = Accepted -> on_accept k = true -> crashed s = false ->
     step s {| ph := upd (ph s) c Rejected; count := count s; close_calls := close_calls s;
               accept_args := (c, (count s + 1)%Z) :: accept_args s; crashed := false |}
-| s_track s c : ph s c = Admitted_ -> crashed s = false ->
+| s_track s c : ph s c = Passed -> crashed s = false ->
     step s {| ph := upd (ph s) c Live; count := (count s + 1)%Z; close_calls := close_calls s; accept_args := accept_args s; crashed := false |}
 | s_exit s c : ph s c = Live -> crashed s = false ->
     step s {| ph := upd (ph s) c Exiting; count := count s; close_calls := close_calls s; accept_args := accept_args s; crashed := false |}
